@@ -502,8 +502,11 @@ _T6_P = {"a": "x{% render 'a' %}{% render 'a' %}", "b": "x{% include 'b' %}{% in
          "e": "{% extends 'e2' %}{% block b %}{% include 'e' %}{% include 'e' %}{% endblock %}", "e2": "[{% block b %}{% endblock %}]",
          "t": "{% if true %}{% render 't' %}{% endif %}{% include 't' %}{% render 't' %}",
          "m": "{% macro f %}{% render 'm' %}{% render 'm' %}{% endmacro %}{% call f %}{% call f %}",
-         "w": "{% with q: 1 %}{% include 'w' %}{% endwith %}{% capture z %}{% include 'w' %}{% endcapture %}{% include 'w' %}"}
-_T6_NAMES = ["a", "b", "c", "e", "t", "m", "w"]
+         "w": "{% with q: 1 %}{% include 'w' %}{% endwith %}{% capture z %}{% include 'w' %}{% endcapture %}{% include 'w' %}",
+         # the bound-variable forms of render / include (a scalar, an array, an alias, keyword arguments)
+         "rw": "x{% render 'rw' with v %}{% render 'rw' with nosuch as q %}", "rf": "x{% render 'rf' for v %}{% render 'rf' for xs as q %}{% render 'rf', a: 1 %}",
+         "iw": "x{% include 'iw' with v %}{% include 'iw' for xs %}{% include 'iw', a: 1 %}"}
+_T6_NAMES = ["a", "b", "c", "e", "t", "m", "w", "rw", "rf", "iw"]
 _T6_ENVS = {}
 
 
@@ -521,9 +524,9 @@ def tolerant_recursion_outcome(ni, mode, use_async):
                 t = env.get_template(_T6_NAMES[ni])
                 if use_async:
                     from vf.hx import drive
-                    drive(t.render_async())
+                    drive(t.render_async(v=1, xs=[1, 2]))
                 else:
-                    t.render()
+                    t.render(v=1, xs=[1, 2])
                 return "completed"
             except _Hang:
                 return "hang"
@@ -538,13 +541,13 @@ def tolerant_recursion_outcome(ni, mode, use_async):
 
 def c09_recursion_tolerant_modes(ni: int, mode: int, use_async: bool) -> bool:
     """
-    pre: 0 <= ni <= 6 and 0 <= mode <= 2
+    pre: 0 <= ni <= 9 and 0 <= mode <= 2
     post: _
     """
     if excluded("c09_recursion_tolerant_modes", locals()):
         return True
     from vf.hx import cbool
-    ni, mode, use_async = cint(ni, 0, 6), cint(mode, 0, 2), cbool(use_async)
+    ni, mode, use_async = cint(ni, 0, len(_T6_NAMES) - 1), cint(mode, 0, 2), cbool(use_async)
     r = untraced(lambda: tolerant_recursion_outcome(ni, mode, use_async))
     return finish(r == "completed" or r == "liquid:ContextDepthError")
 
@@ -559,7 +562,8 @@ CONDITIONS.append({"fn": "c09_recursion_tolerant_modes", "quick": 60, "thorough"
 _T6B_BODY = {"a3": "x{% render 'P' %}{% render 'P' %}{% render 'P' %}", "b3": "x{% include 'P' %}{% include 'P' %}{% include 'P' %}",
              "c": "x{% for i in (1..2) %}{% render 'P' %}{% endfor %}", "t": "{% if true %}{% render 'P' %}{% endif %}{% include 'P' %}{% render 'P' %}",
              "m": "{% macro f %}{% render 'P' %}{% render 'P' %}{% endmacro %}{% call f %}{% call f %}",
-             "w": "{% with q: 1 %}{% include 'P' %}{% endwith %}{% capture z %}{% include 'P' %}{% endcapture %}{% include 'P' %}"}
+             "w": "{% with q: 1 %}{% include 'P' %}{% endwith %}{% capture z %}{% include 'P' %}{% endcapture %}{% include 'P' %}",
+             "rw": "x{% render 'P' with v %}{% render 'P' with nosuch as q %}{% render 'P' for v %}", "iw": "x{% include 'P' with v %}{% include 'P' for xs %}{% include 'P', a: 1 %}"}
 _T6B_NAMES = sorted(_T6B_BODY)
 _T6B_DEPTHS = (0, 6, 12, 18, 24, 28)
 _T6B_WRAP = (("{% if true %}", "{% endif %}"), ("{% for q_ in (1..1) %}", "{% endfor %}"), ("{% capture cc %}", "{% endcapture %}{{ cc }}"))
@@ -594,9 +598,9 @@ def block_depth_recursion_sweep(ni, mode, use_async, plain):
                         t = env.get_template(nm)
                         if use_async:
                             from vf.hx import drive
-                            drive(t.render_async())
+                            drive(t.render_async(v=1, xs=[1, 2]))
                         else:
-                            t.render()
+                            t.render(v=1, xs=[1, 2])
                         r = "completed"
                     except _Hang:
                         r = "hang"
@@ -616,20 +620,20 @@ def block_depth_recursion_sweep(ni, mode, use_async, plain):
 
 def c09_recursion_block_depth(ni: int, mode: int, use_async: bool, plain: bool) -> bool:
     """
-    pre: 0 <= ni <= 5 and 0 <= mode <= 2
+    pre: 0 <= ni <= 7 and 0 <= mode <= 2
     post: _
     """
     if excluded("c09_recursion_block_depth", locals()):
         return True
     from vf.hx import cbool
-    ni, mode, use_async, plain = cint(ni, 0, 5), cint(mode, 0, 2), cbool(use_async), cbool(plain)
+    ni, mode, use_async, plain = cint(ni, 0, len(_T6B_NAMES) - 1), cint(mode, 0, 2), cbool(use_async), cbool(plain)
     return finish(untraced(lambda: not block_depth_recursion_sweep(ni, mode, use_async, plain)))
 
 
 DETAIL["c09_recursion_block_depth"] = lambda ni, mode, use_async, plain: {"partial body": _T6B_BODY[_T6B_NAMES[ni]], "mode": ("STRICT", "WARN", "LAX")[mode], "async": use_async,
                                                                          "loader": "DictLoader" if plain else "CachingDictLoader", "failing": block_depth_recursion_sweep(ni, mode, use_async, plain)[:3]}
 CONDITIONS.append({"fn": "c09_recursion_block_depth", "quick": 120, "thorough": 240, "sel_only": True,
-                   "bounds": "6 self-recursive partial bodies x block depths 0,6,..,24,28 x 3 enclosing block kinds x 3 modes x sync/async x caching/plain dict loader; default limits; 10 s alarm"})
+                   "bounds": "8 self-recursive partial bodies x block depths 0,6,..,24,28 x 3 enclosing block kinds x 3 modes x sync/async x caching/plain dict loader; default limits; 10 s alarm"})
 
 # ---- T7 deeply nested blocks under extends (every block is rendered in a block-scoped copy of the context whose globals
 # chain onto the enclosing scope): a variable defined outside still resolves promptly at any depth the nesting limit allows
@@ -746,6 +750,8 @@ OUTSIDE = ["expression nesting deeper than 3000 levels and nesting shapes other 
 
 def selftest():
     fails = []
+    if len(_T6_NAMES) != 10 or len(_T6B_NAMES) != 8:
+        fails.append("recursion family sizes differ from the bounds of c09_recursion_*")
     v1 = measure("self_include", 0, 1)
     v2 = measure("self_include", 0, 2)
     if v1 is None or v2 is None or v2 <= v1:
